@@ -226,7 +226,16 @@ def _walk_lark_tree(op, *, data_def=None) -> data_algebra.expr_rep.Term:
                 return getattr(left, op_name)(data_algebra.expr_rep.Value(False))
             if r_op.data in ["list", "tuple", "set"]:  # any collection
                 assert len(r_op.children) == 1
-                op_values = [_r_walk_lark_tree(vi) for vi in r_op.children[0].children]
+                items_carrier = r_op.children[0]
+                if items_carrier is None:
+                    raw_items = []  # [] or ()
+                elif isinstance(items_carrier, lark.tree.Tree) and (
+                    items_carrier.data in ["tuplelist_comp", "set_comp"]
+                ):
+                    raw_items = items_carrier.children
+                else:
+                    raw_items = [items_carrier]  # a one item list: the item itself, not its parts
+                op_values = [_r_walk_lark_tree(vi) for vi in raw_items]
                 # check all args are values, not None, same type
                 assert all(
                     [isinstance(vi, data_algebra.expr_rep.Value) for vi in op_values]
